@@ -75,6 +75,17 @@ def run_wrap(case):
     gcall(t.mean_squared_displacement)
     gcall(t.center_of_mass)
     check_positions(gcall(lambda: t.positions), inp, 'after drift correction / msd / centre of mass', TOL_TRIP)
+    # a frame range of a periodic trajectory is a periodic trajectory: same clauses, whichever representation the source was in
+    if T >= 3:
+        k = 1 + (int(abs(inp[0, 0, 0]) * 1e6) % (T - 2))
+        gcall(lambda: t.displacements)
+        sl = gcall(lambda: t[k:])
+        check_positions(gcall(lambda: sl.positions), inp[k:], f'slice [{k}:] taken in displacement representation', TOL_TRIP)
+        d2 = np.array(gcall(lambda: sl.displacements))
+        if np.any(d2[0] != 0) or oracle.circ_diff(inp[k][None] + np.cumsum(d2, axis=0), inp[k:]).max() > TOL_TRIP:
+            raise Violation('running-sum-reproduces-frames', f'slice [{k}:]')
+        check_positions(gcall(lambda: sl.positions), inp[k:], f'slice [{k}:] after its own displacement round trip', TOL_TRIP)
+        check_positions(gcall(lambda: t.positions), inp, 'source after slicing', TOL_TRIP)
     # volume path relies on 0 <= positions < 1
     res = float(min(np.linalg.norm(v) for v in np.array(case['lattice']['matrix']))) / 2.5
     vol = gcall(t.to_volume, resolution=res, clause='to_volume-accepts-positions')
